@@ -184,3 +184,26 @@ sort_types = function(
   nested={'_variable_parents_count': _pc_spec},
   props=('C18',))
 sort_types.dict_hint = MapOf(VType, INT)
+
+# ---- NNXMeta.get_partition_spec: the spec is the one the NNX tooling derives for the re-created Variable ----------------
+# (so logical names are resolved by the variable's own sharding_rules and by the global rules, exactly as on the NNX side)
+VStateT = opaque('VariableStateView', is_str=False)
+PSpecT = opaque('PartitionSpecValue', is_str=False)
+var_to_state = UFn('variable_to_state', [NVar], VStateT, 'Variable.to_state()')
+nnx_gps = UFn('nnx_get_partition_spec', [VStateT], VStateT, 'flax.nnx.spmd.get_partition_spec(state) (contract: specs/nnx_spmd.py)')
+VStateT.attrs['value'] = (PSpecT, None)
+def _record_var(ex, v):
+  ex.ghost['var'] = ex.deref(v)
+  return v
+
+
+nnxmeta_gps = function(
+  F + '::NNXMeta.get_partition_spec', params=[('self', XVar)], returns=PSpecT,
+  requires=["is_(self, 'XNNX')", "not ('value' in self.metadata)"],
+  # ghost('var') is the Variable whose state is taken - the one re-created by to_nnx_variable (its contract above): exactly this box's type, value and metadata
+  ensures=["ghost('var').type == self.var_type and ghost('var').kwargs == map_set(self.metadata, 'value', self.value)",
+           "result == nnx_get_partition_spec(variable_to_state(ghost('var'))).value"],
+  bindings={'NNXMeta.to_nnx_variable': to_nnx_variable,
+            'Variable.to_state': Handler('Variable.to_state', lambda ex, a, kw: ex.call_value(var_to_state, [_record_var(ex, a[0])], {}), 'Variable.to_state(); the receiver is recorded as ghost(var)'),
+            'spmd.get_partition_spec': nnx_gps},
+  props=('C18',))
